@@ -50,6 +50,25 @@ impl Prop for C11 {
         // pairs on the unchanged tree; a rate above 0.5 % means the width has become a style switch
         let n = counters.get("fits_but_differs_both_fit").copied().unwrap_or(0);
         let pairs = counters.get("pairs_where_wider_result_fits_narrower").copied().unwrap_or(0);
+        let all_pairs = counters.get("width_pairs").copied().unwrap_or(0);
+        let mut v = vec![];
+        for (key, class, per_mille, calibrated) in [("more_lines_both_fit", "more-lines-rate", 3u64, "< 0.01 %"), ("overflow_although_narrower_fits", "overflow-rate", 2u64, "< 0.001 %")] {
+            let k = counters.get(key).copied().unwrap_or(0);
+            if all_pairs >= 500 && k * 1000 > all_pairs * per_mille {
+                v.push(crate::prop::Violation {
+                    property: "C11".into(),
+                    class: class.into(),
+                    detail: format!("{k} of {all_pairs} width pairs show the known finding counted as `{key}` (calibrated rate on the unchanged tree: {calibrated}, limit {per_mille} per mille)"),
+                    input: String::new(),
+                    cfg: None,
+                    extra: serde_json::Value::Null,
+                    case_index: 0,
+                });
+            }
+        }
+        if !v.is_empty() {
+            return v;
+        }
         if pairs >= 200 && n * 200 > pairs {
             return vec![crate::prop::Violation {
                 property: "C11".into(),
@@ -144,6 +163,11 @@ impl Prop for C11 {
                         let headers = super::wf::line_type_nb_ranges(&w.text, &[pasfmt_core::prelude::LogicalLineType::RoutineHeader]);
                         if b1.symmetric_difference(&b2).all(|o| headers.iter().any(|(a, b)| o >= a && o < b)) {
                             "routine-header-prefers-parameter-breaks"
+                        } else if max2 <= w2 {
+                            // both results fit their width: a cheaper *kind* of break (argument list
+                            // instead of generic arguments, ...) became feasible; judged by its rate
+                            out.count("more_lines_both_fit");
+                            "break-kind-priority"
                         } else {
                             "more-lines-when-wider"
                         }
@@ -157,7 +181,10 @@ impl Prop for C11 {
                     } else if super::wf::colon_comment_paren(&w.text) {
                         "variant-arm-comment-after-colon"
                     } else {
-                        "fits-narrow-not-wide"
+                        // a fitting layout exists (the narrower result) but the heuristic search returned an
+                        // overflowing one; rare on the unchanged tree, judged by its rate
+                        out.count("overflow_although_narrower_fits");
+                        "search-misses-fitting-layout"
                     };
                     out.violate("C11", class, format!("{} [{}] every line fits at wrap_column {w1} (widest {max1}) but not at {w2} (widest {max2})", w.name, base.short()), &w.text, Some(&c1));
                 }
